@@ -289,6 +289,11 @@ class Facts:
         return out
     def one(self, pkg, path_pat, exact=True):
         r = self.find(pkg, path_pat, exact=exact)
+        if len(r) == 0 and exact:
+            # a type moved to another module prints with another path prefix: compare with module prefixes of type names removed
+            norm = lambda p: re.sub(r"\b(?:[a-z_][a-z0-9_]*::)+(?=[A-Z])", "", p)
+            want = norm(path_pat)
+            r = [b for b in self.bodies(pkg) if b.promoted is None and norm(b.path) == want]
         if len(r) != 1:
             raise AnchorMissing("%s: expected exactly one body %r, found %d" % (pkg, path_pat, len(r)))
         return r[0]
